@@ -360,7 +360,9 @@ def demand_5xx_b(plan):
         return None
     if sh == 'nonit':
         return 'the handler returned a non-iterable body'
-    if sh in bd.ITERATING:
+    if sh in bd.ITERATING and plan.get('xk', 'ex') == 'ex':
+        # (a control-flow exception raised while the body is collapsed is an instruction to the request layer -
+        # redirect, 404 - not an unexpected failure)
         fails = ('x' in items or (b['end'] and sh != 'gen') or (sh == 'gen' and b['close'] == 'raise')
                  or (sh == 'file' and b['close'] == 'raise'))
         if fails:
@@ -589,6 +591,11 @@ def single_fault_plans(quick):
                   ['ex', 'gen', None]):
             for reads in (None, 1):
                 plans.append(P([B(handler=h, tb=tb, stream=1)], gtb=tb, reads=reads))
+                if h[1] in ('gen0', 'gen1', 'gen2'):
+                    # the streamed generator raises one of CherryPy's own control-flow exceptions mid-stream
+                    for gx in GENX:
+                        for closes in (1, 2):
+                            plans.append(P([B(handler=h, tb=tb, stream=1, genx=gx), B()], gtb=tb, reads=reads, closes=closes))
         for stream in ((0, 1) if not quick else (0,)):
             for meth in (('get', 'head', 'post') if not quick else ('get',)):
                 for sh in shapes:
@@ -698,6 +705,26 @@ def _observe_chunk(plans):
     return out
 
 
+GENX = ['ir0', 'ir1', 'hr303', 'he404', 'he500']
+
+
+def plan_line(plan):
+    """pc.plan_line plus the class of what a streamed generator raises (`genx=<page>:<OUT>,...`; the C01 driver drops
+    the token: once the body is being streamed the model has one answer for every Exception subclass)."""
+    gx = ['%d:%s' % (i, pg['genx']) for i, pg in enumerate(plan['pages']) if pg.get('genx')]
+    return pc.plan_line(plan) + (' genx=' + ','.join(gx) if gx else '')
+
+
+def add_genx(plan, rng):
+    """Streamed pages whose generator fails: now and then it raises one of CherryPy's control-flow exceptions."""
+    for pg in plan['pages']:
+        # (no status set by the handler: a bodiless status makes finalize consume the body inside the request layer,
+        # where these classes are instructions - redirect, error page -, not failures)
+        if pg['stream'] and pg['handler'][1] in ('gen0', 'gen1', 'gen2') and pg['handler'][2] is None and rng.random() < 0.5:
+            pg['genx'] = rng.choice(GENX)
+    return plan
+
+
 def check_plans(ctx, plans, compare=True, label='gen'):
     plans = list(plans)
     if not plans:
@@ -710,7 +737,7 @@ def check_plans(ctx, plans, compare=True, label='gen'):
                 return
             check_plans(ctx, plans[i:i + CHUNK], compare=compare, label=label)
         return
-    lines = [pc.plan_line(p) for p in plans]
+    lines = [plan_line(p) for p in plans]
     model = ctx.model(lines) if compare else None
     if len(plans) < 4000:
         results = _observe_chunk(plans)
@@ -1022,7 +1049,7 @@ def _run(ctx):
     while len(plans) < n:
         p = pc.gen_plan(ctx.rng, focus=(ctx.rng.randrange(8) if len(plans) % 3 == 0 else None))
         if not in_known_class(p):
-            plans.append(p)
+            plans.append(add_genx(p, ctx.rng))
     check_plans(ctx, plans, label='random')
     if _stop(ctx):
         return
@@ -1050,7 +1077,7 @@ def search(ctx, around=None):
         while len(plans) < ctx.budget(12000, 60000):
             p = pc.gen_plan(rng, focus=(rng.randrange(8) if len(plans) % 3 == 0 else None))
             if not in_known_class(p):
-                plans.append(p)
+                plans.append(add_genx(p, rng))
         check_plans(ctx, plans, compare=False, label='search')
     if not ctx.oracle_failures:
         check_environs(ctx, 6000)
@@ -1113,7 +1140,7 @@ def replay(ctx, case):
             ctx.oracle_fail(case, 'under wsgiref.validate: %s' % obs['escaped'][:300], 'wsgi_validator')
         return
     obs = run_plan(plan)
-    line = pc.plan_line(plan)
+    line = plan_line(plan)
     print('plan   :', line)
     print('impl   :', ','.join(obs['j']), body_flags_real(obs), 'escaped=%s' % obs['escaped'])
     m = ctx.model([line])
